@@ -4,6 +4,7 @@ import (
 	"go/ast"
 	"regexp"
 	"sort"
+	"strconv"
 	"strings"
 )
 
@@ -127,4 +128,50 @@ func primDefs(root string) ([]string, []string) {
 	}
 	sort.Strings(extra)
 	return out, extra
+}
+
+// ---- checksum services: template translation of the four Calc bodies --------------------------------------------------
+
+var cksTemplates = []primTemplate{
+	{regexp.MustCompile(`^\{ var crc uint16 = (0x[0-9A-Fa-f]+|\d+) for _, b := range data\.Bytes\(\) \{ crc \^= uint16\(b\) for i := 0; i < 8; i\+\+ \{ if crc&0x0001 != 0 \{ crc = \(crc >> 1\) \^ (0x[0-9A-Fa-f]+|\d+) \} else \{ crc >>= 1 \} \} \} return crc \}$`),
+		func(m []string) string { return ".crc16Reflected " + num(m[1]) + " " + num(m[2]) }},
+	{regexp.MustCompile(`^\{ return crc32\.ChecksumIEEE\(data\.Bytes\(\)\) \}$`), func(m []string) string { return ".crc32IEEE" }},
+	{regexp.MustCompile(`^\{ var checksum uint32 for _, b := range data\.Bytes\(\) \{ checksum = \(checksum \+ uint32\(b\)\) & (0x[0-9A-Fa-f]+|\d+) \} return checksum \}$`),
+		func(m []string) string { return ".sumMasked " + num(m[1]) }},
+	{regexp.MustCompile(`^\{ var checksum uint32 for _, b := range data\.Bytes\(\) \{ checksum \+= uint32\(b\) \} return int32\(checksum % (0x[0-9A-Fa-f]+|\d+)\) \}$`),
+		func(m []string) string { return ".sumThenMod " + num(m[1]) }},
+}
+
+func num(s string) string {
+	v, err := strconv.ParseUint(s, 0, 64)
+	if err != nil {
+		return "0"
+	}
+	return strconv.FormatUint(v, 10)
+}
+
+var cksNames = []string{"Crc16ChecksumService", "Crc32ChecksumService", "SseBinChecksumService", "SzseBinChecksumService"}
+
+func cksDefs(root string) []string {
+	bodies := map[string]string{}
+	for _, af := range parseDir(root + "/codec") {
+		for _, d := range af.Decls {
+			if fd, ok := d.(*ast.FuncDecl); ok && fd.Recv != nil && fd.Body != nil && fd.Name.Name == "Calc" {
+				bodies[strings.TrimPrefix(typeStr(fd.Recv.List[0].Type), "*")] = src2(fd.Body)
+			}
+		}
+	}
+	out := make([]string, len(cksNames))
+	for i, n := range cksNames {
+		out[i] = ".unknown"
+		if b, ok := bodies[n]; ok {
+			for _, t := range cksTemplates {
+				if m := t.re.FindStringSubmatch(b); m != nil {
+					out[i] = t.lean(m)
+					break
+				}
+			}
+		}
+	}
+	return out
 }
